@@ -13,8 +13,14 @@ class Env:
         self.logical = logical
         # hygienic names: sympde spaces / functions / domains compare by name, so the dimension
         # is part of every name (name reuse across dimensions is property C12's business)
-        sfx = '%s%d' % (tag, dim)
-        self.domain = Domain('Om' + sfx, dim=dim)
+        sfx = '%s%d%s' % (tag, dim, 'l' if logical else 'p')
+        if logical:
+            self.domain = Domain('Om' + sfx, dim=dim)
+        else:
+            # a mapped domain: physical coordinates x,y,z and operators dx,dy,dz
+            from sympde.topology import Mapping
+            self.mapping = Mapping('M' + sfx, dim=dim)
+            self.domain = self.mapping(Domain('Om' + sfx, dim=dim))
         self.V = ScalarFunctionSpace('V' + sfx, self.domain)
         self.W = VectorFunctionSpace('W' + sfx, self.domain)
         self.sf = [element_of(self.V, name=n + sfx) for n in ('f', 'g', 'h')]
@@ -112,3 +118,115 @@ def has_functions(e):
 
 def tree_size(e):
     return 1 + sum(tree_size(a) for a in getattr(e, 'args', ()))
+
+
+class GenericGen:
+    """well-typed generic (dimension-independent) expressions: scalar-, vector- and matrix-valued,
+    built with the real operator constructors (which apply their own rewriting at construction)"""
+
+    def __init__(self, rng, env, maxdepth=3, p_illtyped=0.0):
+        self.rng, self.env, self.maxdepth = rng, env, maxdepth
+        import importlib
+        self.C = importlib.import_module('sympde.calculus')
+        self.sg = ScalarGen(rng, env, maxdepth=1)
+
+    def coef(self):
+        return self.sg.coef()
+
+    def scalar(self, depth=0):
+        r, env, C = self.rng, self.env, self.C
+        d = env.dim
+        if depth >= self.maxdepth:
+            return r.choice(env.sf)
+        k = r.random()
+        if k < 0.14:
+            return r.choice(env.sf)
+        if k < 0.18:
+            return r.choice(env.coords) if r.random() < 0.6 else self.coef()
+        if k < 0.28:
+            return self.scalar(depth + 1) + self.scalar(depth + 1)
+        if k < 0.42:
+            fs = [self.scalar(depth + 1) for _ in range(r.choice([2, 2, 3]))]
+            if r.random() < 0.4:
+                fs.append(self.coef())
+            return sympy.Mul(*fs)
+        if k < 0.47:
+            return self.scalar(depth + 1) ** r.choice([2, 3, -1])
+        if k < 0.60:
+            return C.dot(self.vector(depth + 1), self.vector(depth + 1))
+        if k < 0.68:
+            return C.div(self.vector(depth + 1))
+        if k < 0.75:
+            return C.laplace(self.scalar(depth + 1))
+        if k < 0.80:
+            return C.inner(self.vector(depth + 1), self.vector(depth + 1))
+        if k < 0.86 and d > 1:
+            return C.inner(self.matrix(depth + 1), self.matrix(depth + 1))
+        if d == 2:
+            q = r.random()
+            if q < 0.35:
+                return C.curl(self.vector(depth + 1))
+            if q < 0.7:
+                return C.cross(self.vector(depth + 1), self.vector(depth + 1))
+            return C.bracket(self.scalar(depth + 1), self.scalar(depth + 1))
+        return self.scalar(depth + 1) * r.choice(env.sf)
+
+    def vector(self, depth=0, fam=None):
+        r, env, C = self.rng, self.env, self.C
+        d = env.dim
+        if d == 1:
+            # in 1D a gradient lowers to a scalar but a vector function to a 1x1 matrix; sums mixing
+            # the two representations are refused by the implementation (open finding C01-1d-mixed),
+            # so a 1D vector expression stays inside one family
+            if fam is None:
+                fam = r.choice(['vf', 'grad'])
+            k = r.random()
+            if depth >= self.maxdepth or k < 0.35:
+                return r.choice(env.vf) if fam == 'vf' else C.grad(self.scalar(depth + 1))
+            if k < 0.6:
+                return self.vector(depth + 1, fam) + self.vector(depth + 1, fam)
+            if k < 0.85:
+                return self.scalar(depth + 1) * self.vector(depth + 1, fam)
+            # (laplace of a product f*F would be rewritten with Dot(Grad(F), Grad(f)): again a mixed sum)
+            return C.laplace(r.choice(env.vf)) if fam == 'vf' else self.coef() * self.vector(depth + 1, fam)
+        if depth >= self.maxdepth:
+            return r.choice(env.vf)
+        k = r.random()
+        if k < 0.2:
+            return r.choice(env.vf)
+        if k < 0.32:
+            return self.vector(depth + 1) + self.vector(depth + 1)
+        if k < 0.47:
+            return self.scalar(depth + 1) * self.vector(depth + 1)
+        if k < 0.65:
+            return C.grad(self.scalar(depth + 1))
+        if k < 0.72:
+            return C.laplace(self.vector(depth + 1))
+        if k < 0.82:
+            return C.dot(self.matrix(depth + 1), self.vector(depth + 1))
+        if k < 0.88:
+            return C.div(self.matrix(depth + 1))
+        if d == 3:
+            if r.random() < 0.5:
+                return C.curl(self.vector(depth + 1))
+            return C.cross(self.vector(depth + 1), self.vector(depth + 1))
+        return C.rot(self.scalar(depth + 1))
+
+    def matrix(self, depth=0):
+        r, env, C = self.rng, self.env, self.C
+        k = r.random()
+        if depth >= self.maxdepth or k < 0.45:
+            return C.grad(r.choice(env.vf) if depth >= self.maxdepth else self.vector(depth + 1))
+        if k < 0.7:
+            return C.hessian(self.scalar(depth + 1))
+        if k < 0.85:
+            return self.matrix(depth + 1) + self.matrix(depth + 1)
+        return self.scalar(depth + 1) * self.matrix(depth + 1)
+
+    def any(self):
+        k = self.rng.random()
+        if k < 0.45:
+            return 'scalar', self.scalar()
+        if k < 0.85 or self.env.dim == 1:
+            return 'vector', self.vector()
+        return 'matrix', self.matrix()
